@@ -684,12 +684,22 @@ class Program:
             res = f.get("res")
             if res is not None and call.rkind != "virtual":
                 out.append(res)
+                # std blanket impls resolved inside generic code: `x.try_into()` ends in some TryFrom impl
+                bl = {"<T as std::convert::TryInto<U>>::try_into": ("std::convert::TryFrom", "try_from"),
+                      "<T as std::convert::Into<U>>::into": ("std::convert::From", "from")}.get(res)
+                if bl:
+                    out.extend(self.trait_impl_methods().get(bl, []))
             else:
                 # unresolved (generic over a bound) or dyn: class hierarchy
                 tr = f.get("trait")
                 name = (f.get("def") or "").rsplit("::", 1)[-1]
                 if tr:
                     out.extend(self.trait_impl_methods().get((tr, name), []))
+                    # std blanket impls: x.try_into() is TryFrom::try_from, x.into() is From::from
+                    blanket = {("std::convert::TryInto", "try_into"): ("std::convert::TryFrom", "try_from"),
+                               ("std::convert::Into", "into"): ("std::convert::From", "from")}.get((tr, name))
+                    if blanket:
+                        out.extend(self.trait_impl_methods().get(blanket, []))
                 if f.get("def"):
                     out.append(f["def"])
         # closures / fn items passed as arguments run (at the latest) in the callee
